@@ -42,9 +42,12 @@ impl Quat {
     ///
     /// Returns the identity quaternion when the axis length is ≤ `EPSILON` to avoid
     /// undefined orientations and preserve deterministic behaviour. No small-angle approximation is applied.
+    /// The identity is also returned when the squared axis length is not finite (it overflowed, or a
+    /// component is NaN/±∞), mirroring how [`Quat::normalize`] degrades: `det_sqrt_f32` maps a
+    /// non-finite input to `0.0`, which would otherwise yield a NaN quaternion.
     pub fn from_axis_angle(axis: Vec3, angle: f32) -> Self {
         let len_sq = axis.length_squared();
-        if len_sq <= EPSILON * EPSILON {
+        if len_sq <= EPSILON * EPSILON || !len_sq.is_finite() {
             return Self::identity();
         }
         let len = crate::det_sqrt_f32(len_sq);
